@@ -1,5 +1,6 @@
 import ProbLogProofs.Lemmas.C17Refute
 import ProbLogProofs.Lemmas.C17RoundTrip
+import ProbLogProofs.Lemmas.C17Total
 /-!
 # C17 — the parser is total and printing round-trips (property theorems)
 
@@ -81,6 +82,28 @@ theorem C17_roundtrip_refuted_nested_not :
     parseString "p :- findall(X, not q(X), L)." = .ok [wNot] ∧ ¬ RoundTrips wNot := by
   refine ⟨wNot_src, fun h => ?_⟩
   unfold RoundTrips at h; rw [wNot_print, wNot_reparse] at h; simp [wNot, Tm.app] at h
+
+/-- **Totality of the modelled `collapse`/`label_tokens`/`fold`** (partial: token lists without a `<` token; the full
+    statement is refuted by the three witnesses below). For every token list whose tokens have the flags the tokenizer
+    gives them (`aggregate` unset, no `functor` flag without `atom`, `,` and `|` are not atoms) the model returns a
+    term, a `ParseError`, a factory outcome — or one of the two internal errors of `_build_clause`; in particular
+    `tokens[i + 1]` in `label_tokens`, `enum_tokens()` of a non-list in `_build_operator_free`, `tokens[-1]` of an
+    empty list and the recursion bound of `fold` are never reached. -/
+theorem C17_fold_total_partial (toks : List Tok)
+    (h : ∀ t ∈ toks, t.aggregate = false ∧ (t.atom = false → t.functor = false) ∧
+        (t.special = some .comma ∨ t.special = some .pipe → t.atom = false) ∧ t.special ≠ some .sharpOpen) :
+    ∀ k, collapse toks = .error (.internal k) → k = "AttributeError:_build_clause" ∨ k = "IndexError:_build_clause" := by
+  intro k hk
+  refine collapse_noBad toks (fun t ht => ?_) k hk
+  obtain ⟨h1, h2, h3, h4⟩ := h t ht
+  exact ⟨⟨h1, rfl, h2, h3⟩, by simpa using h4⟩
+
+/-- non-vacuity: the tokens `p ( X , [ a | T ] ) , \\+` (as the tokenizer builds them) satisfy the hypothesis -/
+example : ∀ t ∈ ([tk "p" none true, tLP, tk "X" (some .variable), tComma, tLB, tk "a", tPipe, tk "T" (some .variable), tRB, tRP,
+      tComma, { tk "\\+" with unop := some ⟨900, .fy, .not_⟩ }] : List Tok),
+    t.aggregate = false ∧ (t.atom = false → t.functor = false) ∧
+      (t.special = some .comma ∨ t.special = some .pipe → t.atom = false) ∧ t.special ≠ some .sharpOpen := by
+  decide
 
 /-- `collapse` reads `tokens[token_i + 1]` before checking the length: a statement ending in `<` is an `IndexError`. -/
 theorem C17_fold_total_refuted_sharp : parseString "a <." = .error (.internal "IndexError:collapse") := rfl
